@@ -107,3 +107,27 @@ Module DistInstFine.
     | None => None
     end.
 End DistInstFine.
+
+(* Second scripted algebra (harness metric M2): the metric does not override postprocess_distances (identity, the
+   trait default) and answers Some (None, None) for some pairs - still a value, still one result. *)
+Module DistInstFine2.
+  Import DistInst.
+  Definition i_metric2 (cls : N) (_ : trk) (a : N) (_ : trk) (b : N) : option (option N * option N) :=
+    match N.modulo (a + b) 4 with
+    | 0%N => None
+    | 1%N => Some (None, if N.even a then None else Some a)
+    | _ => Some (Some (16 * a + b + cls)%N, if N.even (a * b) then Some a else None)
+    end.
+  Definition i_post2 (_ : trk) (l : list (N * N * (option N * option N))) := l.
+  Definition frun_i2 := frun trk N (option N * option N) t_id i_compatible i_status i_obs i_metric2 i_post2.
+  Definition run_foreign_fine (sh : list (list trk)) (cands : list trk) (cls : N) (ob : bool) (sigma : list flabel) :=
+    match frun_i2 cls ob (finit_foreign trk (option N * option N) sh cands) sigma with
+    | Some s => Some (ffinal trk (option N * option N) s, got_ok (fb s), got_err (fb s))
+    | None => None
+    end.
+  Definition run_owned_fine (sh : list (list trk)) (ids : list N) (cls : N) (ob : bool) (sigma : list flabel) :=
+    match frun_i2 cls ob (finit_owned trk (option N * option N) sh ids) sigma with
+    | Some s => Some (ffinal trk (option N * option N) s, got_ok (fb s), got_err (fb s))
+    | None => None
+    end.
+End DistInstFine2.
